@@ -556,3 +556,10 @@ func iterationSkips(fn *ssa.Function, must ssa.Instruction) (bool, string) {
 	}
 	return false, ""
 }
+
+// iterationSkips2: like iterationSkips, for the loop that ENCLOSES the loop headed at / containing `must` (must is an
+// instruction of an inner loop's preheader, e.g. the Range instruction of `for x := range …` nested in the outer loop).
+func iterationSkips2(fn *ssa.Function, must ssa.Instruction) (bool, string) {
+	// the Range instruction sits in the block just before the inner loop's header, which belongs to the outer loop only
+	return iterationSkips(fn, must)
+}
